@@ -94,6 +94,41 @@ the signal singles of the exchanged setup with the arguments exchanged -/
 def jsiSinglesIdler (sr : Setup α → α → α → α) (J : JSetup α) (ωs ωi : α) : α :=
   jsiSingles sr J.swap ωi ωs
 
+/-- the setup with `pump_average_power` scaled by `a` and `deff` by `b` -/
+def JSetup.scaled (J : JSetup α) (a b : α) : JSetup α :=
+  { J with power := a * J.power, deff := b * J.deff }
+
+/-- `JointSpectrum::new` : `jsa_center` computed from the optimum clone `Jo` at its centre
+frequencies -/
+def jsaCenter (Jo : JSetup α) (nodes : List (α × α)) (scale : α) : α :=
+  Transc.sqrt (jsiNormalization Jo.normIn Jo.sig Jo.idl Jo.sig.freq Jo.idl.freq)
+    * (jsaRaw Jo nodes scale Jo.sig.freq Jo.idl.freq).abs
+
+/-- `JointSpectrum::new` : `jsi_singles_center` -/
+def jsiSinglesCenter (sr : Setup α → α → α → α) (Jo : JSetup α) : α :=
+  jsiSinglesNormalization Jo.normIn Jo.sig Jo.idl Jo.sig.freq Jo.idl.freq
+    * jsiSinglesRaw sr Jo Jo.sig.freq Jo.idl.freq
+
+/-- `JointSpectrum::jsa_normalized` -/
+def jsaNormalized (J Jo : JSetup α) (nodes : List (α × α)) (scale : α) (ωs ωi : α) : Cx α :=
+  Cx.divs (jsa J nodes scale ωs ωi) (jsaCenter Jo nodes scale)
+
+/-- `JointSpectrum::jsi_normalized` -/
+def jsiNormalized (J Jo : JSetup α) (nodes : List (α × α)) (scale : α) (ωs ωi : α) : α :=
+  let c := jsaCenter Jo nodes scale
+  jsi J nodes scale ωs ωi / (c * c)
+
+/-- `JointSpectrum::jsi_singles_normalized` -/
+def jsiSinglesNormalized (sr : Setup α → α → α → α) (J Jo : JSetup α) (ωs ωi : α) : α :=
+  jsiSingles sr J ωs ωi / jsiSinglesCenter sr Jo
+
+/-- `efficiencies_from_counts` : (symmetric, signal, idler) -/
+def efficienciesFromCounts (cc ss si : α) : α × α × α :=
+  let sigEff : α := if PM.isZero si then (0.0 : α) else cc / si
+  let idlEff : α := if PM.isZero ss then (0.0 : α) else cc / ss
+  let sym : α := if PM.isZero ss || PM.isZero si then (0.0 : α) else cc / Transc.sqrt (ss * si)
+  (sym, sigEff, idlEff)
+
 /-- `counts::get_counts_correction` : vacuum wavelengths `λ_p, λ_s, λ_i`, indices at the centre
 frequencies `n_s, n_i, n_p`, group indices of signal and idler -/
 def countsCorrection (lp ls li ns ni np ngs ngi : α) : α :=
